@@ -24,3 +24,12 @@ func Generate(id, tier, repo string) ([]File, error) {
 }
 
 func Assumptions(id string) []string { return assumptions[id] }
+
+// ScratchPrograms returns generator-input programs for properties checked by translation validation.
+func ScratchPrograms(id, tier string, seed int) []Program {
+	switch id {
+	case "C07":
+		return ValuePrograms(tier, seed)
+	}
+	return nil
+}
